@@ -47,13 +47,23 @@ def read_all(env, k=None):
     return out
 
 # ------------------------------------------------------------------ pipelines
+HELD = []      # learner objects the "caller" passed to logged(...): reading must not train them
+class LocalLearner:
+    """a stateful logging learner that cannot be pickled (it holds a lambda)"""
+    def __init__(self, k): self.k, self.n, self.f = k, 0, (lambda x: x)
+    @property
+    def params(self): return {"family": "Local", "k": self.k}
+    def predict(self, context, actions): return actions[(self.n + self.k) % len(actions)], 1.0
+    def learn(self, context, action, reward, probability, **kw): self.n += 1
+
 def gen_pipeline(rng):
     """returns (builder, description): builder() constructs a fresh, equal pipeline (Environments of one env)"""
     import coba
     from coba.learners import RandomLearner, BanditEpsilonLearner
     n = rng.choice([0, 1, 3, 8, 20, 40])
     s = rng.randrange(1, 20)
-    src_kind = rng.choice(["linear", "neighbors", "kernel", "mlp", "bandit", "lambda", "xy", "csv", "arff"])
+    src_kind = rng.choice(["linear", "neighbors", "kernel", "mlp", "bandit", "lambda", "xy", "csv", "arff", "xysparse"])
+    XS = [{k: rng.randrange(1, 6) for k in rng.sample("abcdefg", rng.randrange(1, 4))} for _ in range(max(n, 1))]
     X = [[rng.randrange(0, 5), rng.choice([1.5, 2.5, None]) if src_kind == "xy" else rng.randrange(0, 5)] for _ in range(max(n, 1))]
     Y = [rng.choice(["a", "b", "c"]) for _ in range(max(n, 1))]
     csv_lines = ["%d,%d,%s" % (x[0], 3, y) for x, y in zip(X, Y)]
@@ -61,7 +71,7 @@ def gen_pipeline(rng):
     steps = []
     for _ in range(rng.choice([0, 1, 2, 2, 3, 4, 5])):
         k = rng.choice(["shuffle", "shuffle", "take", "slice", "reservoir", "sort", "scale", "impute", "where", "noise", "riffle", "flatten", "binary", "sparse", "dense",
-                        "repr", "cycle", "params", "batch", "logged", "ope", "cache", "cache", "chunk"])
+                        "repr", "cycle", "params", "batch", "logged", "ope", "cache", "cache", "chunk", "fan", "logged-local"])
         if k == "shuffle": steps.append(("shuffle", (rng.randrange(0, 9),)))
         elif k == "take": steps.append(("take", (rng.choice([0, 1, 3, 10, 50]), rng.random() < 0.3)))
         elif k == "slice": steps.append(("slice", (rng.choice([None, 0, 2]), rng.choice([None, 5, 30]), rng.choice([1, 2]))))
@@ -79,6 +89,8 @@ def gen_pipeline(rng):
         elif k == "batch": steps.append(("batch", (rng.choice([1, 2, 7]),)))
         elif k == "logged": steps.append(("logged", (rng.choice(["random", "epsilon"]), rng.randrange(1, 5))))
         elif k == "ope": steps.append(("ope", ("IPS",)))
+        elif k == "fan": steps.append(("fan", (rng.randrange(1, 9), rng.randrange(1, 9))))
+        elif k == "logged-local": steps.append(("logged-local", (rng.randrange(1, 5),)))
         else: steps.append((k, ()))
     def build(caller_data=None):
         E = coba.Environments
@@ -91,6 +103,8 @@ def gen_pipeline(rng):
         elif src_kind == "xy":
             d = caller_data if caller_data is not None else (copy.deepcopy(X), copy.deepcopy(Y))
             env = E.from_supervised(d[0], d[1], "c")
+        elif src_kind == "xysparse":
+            env = E.from_supervised(copy.deepcopy(XS), copy.deepcopy(Y), "c")
         elif src_kind == "csv":
             from coba.environments.supervised import CsvSource; from coba.pipes import ListSource
             env = E.from_supervised(CsvSource(ListSource(list(csv_lines))), 2, "c")
@@ -104,10 +118,13 @@ def gen_pipeline(rng):
             elif k == "batch": env = env.batch(*a).unbatch()
             elif k == "logged": env = env.logged(RandomLearner(a[1]) if a[0] == "random" else BanditEpsilonLearner(0.3, a[1]), seed=a[1])
             elif k == "ope": env = env.ope_rewards(*a)
+            elif k == "fan": env = env.shuffle(list(a))      # several environments from here on
+            elif k == "logged-local":
+                lrn = LocalLearner(a[0]); HELD.append(lrn); env = env.logged(lrn, seed=a[0])
             elif k == "noise": env = env.noise(context=a[0], action=a[1], reward=a[2], seed=a[3])
             else: env = getattr(env, k)(*a)
         return env
-    return build, dict(source=src_kind, n=n, seed=s, steps=[(k, repr(a)) for k, a in steps]), (X, Y) if src_kind == "xy" else None
+    return build, dict(source=src_kind, n=n, seed=s, steps=[(k, repr(a)) for k, a in steps], unpicklable=any(k == "logged-local" for k, _ in steps)), (X, Y) if src_kind == "xy" else None
 
 def _ctx(i, rng): return [rng.randint(0, 5), i]
 def _acts(i, c, rng): return [0, 1, 2]
@@ -135,10 +152,15 @@ def run_pipelines(ctx, n_cases):
             hist = gen_history(rng, desc["n"])
             case = dict(pipeline=desc, history=[list(h) for h in hist])
             nontrivial = bool(desc["steps"]) and any(h[0] in ("partial", "pickle", "materialize", "save") for h in hist)
+            if desc.get("unpicklable"): hist = [h for h in hist if h[0] not in ("pickle", "save", "materialize")] or [("full",)]
+            if any(k == "fan" for k, _ in desc["steps"]): hist = [("sibling",)] + hist
+            case = dict(pipeline=desc, history=[list(h) for h in hist])
             try:
                 snapshot = copy.deepcopy(caller)
+                del HELD[:]
                 twin = build()
-                ref = read_all(twin[0])
+                ref = read_all(twin[-1])
+                del HELD[:]
             except Exception as e:
                 ctx.count("pipeline:incompatible", repr(case), False); continue
             ctx.count("pipeline:" + desc["source"], repr(case), nontrivial)
@@ -146,7 +168,7 @@ def run_pipelines(ctx, n_cases):
             for h in hist: ctx.dist["history:" + h[0]] = ctx.dist.get("history:" + h[0], 0) + 1
             try:
                 envs = build(caller)
-                env = envs[0]
+                env = envs[-1]
                 params_seen = None
                 for step, h in enumerate(hist):
                     if h[0] == "full":
@@ -155,6 +177,8 @@ def run_pipelines(ctx, n_cases):
                     elif h[0] == "partial":
                         got = read_all(env, h[1])
                         if got != ref[:h[1]]: ctx.fail(["reread", "partial-read-differs"], "read of %d items at step %d is not the prefix of the reference" % (h[1], step), dict(case, step=step)); break
+                    elif h[0] == "sibling":
+                        if len(envs) > 1: read_all(envs[0])
                     elif h[0] == "params":
                         p = canon_val(dict(env.params))
                         if params_seen is not None and p != params_seen: ctx.fail(["reread", "params-changed"], "params %r then %r" % (params_seen, p), dict(case, step=step)); break
@@ -167,7 +191,8 @@ def run_pipelines(ctx, n_cases):
                         path = os.path.join(work, "e%d.zip" % idx)
                         env = coba.Environments(env).save(path, overwrite=True)[0]
                 else:
-                    if caller is not None and caller != snapshot: ctx.fail(["reread", "caller-data-modified"], "the X/Y lists passed to from_supervised were modified by reading", case)
+                    if any(l.n != 0 for l in HELD): ctx.fail(["reread", "caller-learner-trained"], "the learner object passed to logged(...) was trained by reading the environment (it has learned %s times)" % [l.n for l in HELD], case)
+                    elif caller is not None and caller != snapshot: ctx.fail(["reread", "caller-data-modified"], "the X/Y lists passed to from_supervised were modified by reading", case)
                     else: ctx.sample(dict(case=case, n_ref=len(ref)), cap=4)
             except Exception as e:
                 ctx.fail(["reread", "raises", errname(e), hist[step][0] if 'step' in dir() else "?"], "history step raised %s: %s on %s" % (errname(e), str(e)[:120], case), case)
@@ -223,11 +248,45 @@ def corpus(ctx):
     if read_all(env) != ref or p.get("shuffle_seed", p.get("shuffle")) not in (1, None) and 1 not in p.values():
         ctx.fail(["reread", "full-read-differs", "full"], "logged Shuffle(1): a read dropped after one item changed the next read / params %r" % p, dict(what="corpus logged-shuffle-partial"))
 
+def siblings(ctx, n_cases):
+    """several environments built by one Environments call chain: what one of them yields does not depend on whether (or in which order) its siblings were read, nor on pickling"""
+    import coba
+    rng = ctx.rng
+    for _ in range(n_cases):
+        n = rng.choice([3, 5, 8])
+        XS = [{k: rng.randrange(1, 6) for k in rng.sample("abcdefgh", rng.randrange(1, 4))} for _ in range(n)]
+        Y = [rng.choice(["a", "b"]) for _ in range(n)]
+        seeds = rng.sample(range(1, 30), rng.choice([2, 3]))
+        tail = rng.choice(["dense-lookup", "dense-lookup", "dense-hashing", "scale", "impute", "repr", "none"])
+        def build():
+            e = coba.Environments.from_supervised(copy.deepcopy(XS), list(Y), "c").shuffle(list(seeds))
+            if tail == "dense-lookup": e = e.dense(30, "lookup")
+            elif tail == "dense-hashing": e = e.dense(64, "hashing")
+            elif tail == "scale": e = e.dense(30, "lookup").scale("min", "minmax")
+            elif tail == "impute": e = e.impute("mode")
+            elif tail == "repr": e = e.repr("onehot", "onehot")
+            return e
+        order = list(range(len(seeds))); rng.shuffle(order)
+        case = dict(X=XS, Y=Y, shuffle_seeds=seeds, tail=tail, read_order=order, what="siblings")
+        ctx.count("siblings:" + tail, repr(case), True)
+        try:
+            refs = []
+            for j in range(len(seeds)): refs.append(read_all(build()[j]))      # every environment read alone, from a pipeline of its own
+            envs = build()
+            for j in order:
+                got = read_all(envs[j])
+                if got != refs[j]: ctx.fail(["reread", "sibling-dependent", tail], "environment %d of %d reads differently after its siblings %s were read than when it is read alone" % (j, len(seeds), order[:order.index(j)]), case); break
+                again = read_all(pickle.loads(pickle.dumps(envs[j])))
+                if again != refs[j]: ctx.fail(["reread", "sibling-dependent", tail, "pickled"], "a pickled copy of environment %d (taken after reading siblings %s) reads differently than the environment read alone" % (j, order[:order.index(j) + 1]), case); break
+        except Exception as e:
+            ctx.fail(["reread", "raises", errname(e), "siblings"], "siblings case raised %s: %s" % (errname(e), str(e)[:100]), case)
+
 def run(ctx):
     from coba.context import CobaContext, NullLogger
     CobaContext.logger = NullLogger()
     os.makedirs(os.path.join(VERIF, ".work"), exist_ok=True)
     corpus(ctx)
+    siblings(ctx, ctx.n(60, 800))
     run_cache(ctx, ctx.n(400, 5000))
     run_pipelines(ctx, ctx.n(400, 5000))
 
